@@ -8,6 +8,11 @@ CHECKS = {
     text="Exploration: every expression tree of depth<=2 over all operators on boundary operands (quick: depth 1 complete, depth 2 strided; thorough: complete), millions of random deeper trees, token soup and arbitrary text, each compared with an independent exact evaluator (value, final variables, or 'must be an error'). Bounded search, not a proof: absence of wrong results is only shown for what was generated.",
     note="Trusted: the harness' reference evaluator (C semantics on i128) and renderer. Unsequenced side effects, parenthesised lvalues and non-constant variable texts are skipped as unspecified.",
     design="4/C03"),
+ "C04": dict(
+    technique="property-based testing: exhaustive (pattern, string, mode) enumeration + proptest bracket-expression grammar against an independent POSIX pattern parser and backtracking matcher",
+    text="Exploration: every pattern up to length 4 (quick) / 5 (thorough) over the metacharacter alphabet, with and without backslash escaping, against every string up to length 3, in the six configurations the shell uses (whole match with/without leading-period rule, the four trims); plus random longer patterns with ranges, classes, collating symbols and equivalence classes over all printable ASCII and some non-ASCII characters. Compared with a reference matcher written from the POSIX text. Bounded search, not a proof.",
+    note="Trusted: the harness' reference parser/matcher for the POSIX locale. Patterns whose meaning POSIX leaves undefined are skipped (counted in the evidence).",
+    design="4/C04"),
 }
 
 PENDING_REASON = "check not built yet in this round of work (planned in DESIGN.md section 4); nothing is claimed for it"
@@ -43,7 +48,7 @@ def main():
         "hooks": {
             "guard": "cargo feature `verif-hooks` of crate yash-env (off by default)",
             "enable": "the harness manifest /verif/harness/Cargo.toml lists yash-env with features [\"test-helper\", \"verif-hooks\"] once the hook commit exists; run-time switch yash_env::verif_hooks::set_preemption(true) is used only by the schedule-exploring checks",
-            "baseline_off_cmd": "cd /repo && cargo nextest run --workspace --no-fail-fast --test-threads 8 --offline || cargo test --workspace --no-fail-fast --offline",
+            "baseline_off_cmd": "cd /repo && (cargo nextest run --workspace --no-fail-fast --tool-config-file pb:/w/lib/nextest.toml --profile pb --test-threads 8 --offline || cargo test --workspace --no-fail-fast --offline)",
             "source_commits": hooks_commits,
             "add_only": True,
         },
